@@ -26,8 +26,8 @@ type Loc struct {
 	Comp     string
 	CompSort Sort
 	Base     Term
-	Idx      Term // element index relative to Off
-	Off      Term // offset of the slice inside its backing array (locElem)
+	Idx      Term  // element index relative to Off
+	Off      Term  // offset of the slice inside its backing array (locElem)
 	Path     []int // struct field path inside the stored value
 	Sort     Sort  // sort of the value at the end of Path
 	Root     Sort  // sort of the stored value (before Path)
@@ -67,17 +67,17 @@ type loopInfo struct {
 	blocks  map[*ssa.BasicBlock]bool
 	spec    *LoopSpec
 	// recorded at the cut
-	names    map[string]nameBinding
-	measure  Term
-	hasMeas  bool
-	preHeap  *Heap // heap just before the havoc (for frame reasoning in invariants: old-at-loop-entry not exposed)
-	cutHeap  *Heap
-	cutPC    Term
-	phiVals  map[*ssa.Phi]Term
-	frameEqs []Term
-	stable   map[string]bool // field components assumed unwritten by the loop (validated)
-	fullComps []compRef      // components the loop havocs entirely (get an automatic frame invariant)
-	rangePhis []*ssa.Phi     // range-index phis (automatic invariant phi >= -1)
+	names     map[string]nameBinding
+	measure   Term
+	hasMeas   bool
+	preHeap   *Heap // heap just before the havoc (for frame reasoning in invariants: old-at-loop-entry not exposed)
+	cutHeap   *Heap
+	cutPC     Term
+	phiVals   map[*ssa.Phi]Term
+	frameEqs  []Term
+	stable    map[string]bool // field components assumed unwritten by the loop (validated)
+	fullComps []compRef       // components the loop havocs entirely (get an automatic frame invariant)
+	rangePhis []*ssa.Phi      // range-index phis (automatic invariant phi >= -1)
 	// the map-clearing idiom `for k := range m { delete(m, k) }`: executed as one
 	// step (the map becomes empty), no invariant needed
 	clearMap  ssa.Value
@@ -189,7 +189,7 @@ type Frame struct {
 	callStack []*ssa.Function
 	inLoopOf  map[*ssa.BasicBlock][]*loopInfo
 	closures  map[string]*closureInfo
-	frameMS   *modSet // targets of the function's modifies clause (top frame only)
+	frameMS   *modSet   // targets of the function's modifies clause (top frame only)
 	dctx      *deferCtx // set while deferred calls run
 }
 
